@@ -145,6 +145,9 @@ def gen(run, tier, seed=0, results_only=False):
                       ("both_none", (2, 2), "log_is(&[0])", "assert!(matches!(&out, Ok(Value::Bool(true))));"),
                       ("right_none", (1, 2), "log_is(&[0, 1])", "assert!(matches!(&out, Ok(Value::Bool(true))));")],
     }
+    import os
+    if not os.environ.get("VERIF_TRY_LAZY_ARMS"):
+        lazy_cases = {}   # measured: every lazy-arm slice exceeds 600 s / several GB (helper + one more async layer); opt-in experiment only
     for variant, cases in lazy_cases.items():
         a = arms.get(variant)
         if not a or not a["lazy"]:
